@@ -498,16 +498,22 @@ def run_matrix(tier, seed, only=None):
     summary, failures = mapgraph("ALL", tier, seed, jobs, ["debug", "release"])
     info, fl = nostd_probe()
     verdict = {}
+    FIELDS = ("family", "consts", "mode", "spec", "sweep", "shapes")
+
+    def owned_by(pid, base):
+        return any(pid in owners[k] for k in owners if all(json.loads(k).get(f) == base.get(f) for f in FIELDS))
+
     for pid in ALL_PIDS:
         gate = GATES.get(pid, {pid, "CRASH"}) | {"SPEC"}
         mine = []
         for props, ex in failures:
             jk = ex.get("jobkey")
-            base = json.dumps({k: v for k, v in json.loads(jk).items()}, sort_keys=True) if jk else None
-            owned = any(pid in owners.get(k, ()) for k in owners if base and json.loads(k).get("family") == json.loads(base).get("family")
-                        and json.loads(k).get("consts") == json.loads(base).get("consts") and json.loads(k).get("mode") == json.loads(base).get("mode")
-                        and json.loads(k).get("spec") == json.loads(base).get("spec") and json.loads(k).get("sweep") == json.loads(base).get("sweep"))
-            if ((props & gate and widened_ok(pid, props, ex)) if not ex.get("trace") else pid in props) and owned:
+            base = json.loads(jk) if jk else None
+            if not base or not owned_by(pid, base):
+                continue
+            # (as in run_check: a failure that no check running this very job would report is never dropped)
+            orphan = not any(owned_by(p, base) for p in props if p in ALL_PIDS)
+            if ((props & gate and widened_ok(pid, props, ex)) if not ex.get("trace") else pid in props) or orphan:
                 mine.append(ex)
         if pid == "C06":
             mine.extend(ex for props, ex in fl)
@@ -858,7 +864,8 @@ def run_check(pid, tier, seed):
         summary["tlaps_inductive_invariant"] = tlaps_proof()
     gate = GATES.get(pid, {pid, "CRASH"}) | {"SPEC"}
     # (a rejected trace event is attributed exactly; the widened gates apply to replayed transitions only;
-    #  but a rejection that no check running this very trace job would report is never dropped silently)
+    #  but a failure - a rejected trace event or a replayed transition that disagrees with the model - that no
+    #  check running this very job would report is never dropped silently: it is reported here)
     def orphan(props, ex):
         jk = ex.get("jobkey")
         for other in props:
@@ -866,7 +873,7 @@ def run_check(pid, tier, seed):
                 return False
         return True
     mine = [ex for props, ex in failures
-            if ((props & gate and widened_ok(pid, props, ex)) if not ex.get("trace") else (pid in props or orphan(props, ex)))]
+            if ((props & gate and widened_ok(pid, props, ex)) if not ex.get("trace") else pid in props) or orphan(props, ex)]
     # a recorded (not repaired) genuine defect is a finding, not an alarm to keep raising
     known = known_sites(pid)
     if known and mine:
